@@ -368,14 +368,15 @@ impl DiskManager {
         }
 
         let dir_index = rng().random_range(0..local_dirs.len());
+        let tempfile = Builder::new()
+            .tempfile_in(local_dirs[dir_index].as_ref())
+            .map_err(DataFusionError::IoError)?;
+        // Only count the file once it exists: the matching decrement happens in
+        // `RefCountedTempFile::drop`, which never runs if creation failed.
         self.active_files_count.fetch_add(1, Ordering::Relaxed);
         Ok(Arc::new(RefCountedTempFile {
             parent_temp_dir: Arc::clone(&local_dirs[dir_index]),
-            tempfile: Arc::new(
-                Builder::new()
-                    .tempfile_in(local_dirs[dir_index].as_ref())
-                    .map_err(DataFusionError::IoError)?,
-            ),
+            tempfile: Arc::new(tempfile),
             current_file_disk_usage: Arc::new(AtomicU64::new(0)),
             disk_manager: Arc::clone(self),
         }))
